@@ -81,20 +81,33 @@ func (d *DNode) Count() int {
 
 func statusStr(s schema.Status) string { return s.String() }
 
+// WithPrograms: print the compiled program of every must, when and leafref path after its source text (the
+// program names the namespace of every name test).  Set by C12.
+var WithPrograms bool
+
+func prog(m interface{ PrintMachine() string }) string {
+	if !WithPrograms {
+		return ""
+	}
+	return " program=" + strings.Join(strings.Fields(m.PrintMachine()), " ")
+}
+
 func whenStr(w schema.WhenContext) string {
-	e := "<nil machine>"
+	e, pg := "<nil machine>", ""
 	if w.Mach != nil {
 		e = w.Mach.GetExpr()
+		pg = prog(w.Mach)
 	}
-	return fmt.Sprintf("when expr=%q errmsg=%q runAsParent=%v ns=%q", e, w.ErrMsg, w.RunAsParent, w.Namespace)
+	return fmt.Sprintf("when expr=%q errmsg=%q runAsParent=%v ns=%q%s", e, w.ErrMsg, w.RunAsParent, w.Namespace, pg)
 }
 
 func mustStr(m schema.MustContext) string {
-	e := "<nil machine>"
+	e, pg := "<nil machine>", ""
 	if m.Mach != nil {
 		e = m.Mach.GetExpr()
+		pg = prog(m.Mach)
 	}
-	return fmt.Sprintf("must expr=%q errmsg=%q apptag=%q ns=%q", e, m.ErrMsg, m.AppTag, m.Namespace)
+	return fmt.Sprintf("must expr=%q errmsg=%q apptag=%q ns=%q%s", e, m.ErrMsg, m.AppTag, m.Namespace, pg)
 }
 
 // TypeString renders a type completely.
@@ -163,11 +176,12 @@ func TypeString(t schema.Type) string {
 	case schema.InstanceId:
 		fmt.Fprintf(&b, " instance-identifier require=%v", x.Require())
 	case schema.Leafref:
-		e := "<nil machine>"
+		e, pg := "<nil machine>", ""
 		if x.Mach() != nil {
 			e = x.Mach().GetExpr()
+			pg = prog(x.Mach())
 		}
-		fmt.Fprintf(&b, " leafref path=%q", e)
+		fmt.Fprintf(&b, " leafref path=%q%s", e, pg)
 	case schema.Bits:
 		b.WriteString(" bits[")
 		for _, bit := range x.Bits() {
